@@ -21,6 +21,9 @@ PAYLOADS = {
     "file": [((), 2 * P0 + 7)],
     # names that tie under other popular sort keys: canonically equivalent
     # spellings (NFC / NFD), equal numeric value (f1 / f01)
+    # directories below the root whose names repeat / end in the root's name
+    "dir-nest": [(("top", "x"), 20000), (("live top", "top", "y"), P0 + 1),
+                 (("d", "z"), 5)],
     "dir-eq": [(("caf\u00e9.bin",), 20000), (("cafe\u0301.bin",), P0 + 1),
                (("d", "f01"), 5), (("d", "f1"), 7)],
 }
